@@ -133,7 +133,7 @@ def _one_hot(ck: Check, repo: Repo) -> None:
     po = repo.fn(AU, "preprocess_observation")
     cfg = CFG(po.node)
     ohs = [c for c in calls_in(po.node, nested=True) if call_name(c) == "F.one_hot"]
-    ck.floor("C15.3", len(ohs), 2, "one-hot encodings in preprocess_observation")
+    ck.floor("C15.3", len(ohs), 2, "one-hot encodings in preprocess_observation", fn=po)
     for c in ohs:
         nc = get_kw(c, "num_classes", 1)
         s = ast.unparse(nc) if nc is not None else ""
@@ -161,7 +161,7 @@ def _image(ck: Check, repo: Repo) -> None:
     cfg = CFG(fn.node)
     tb = TermBuilder(repo, fn, cfg=cfg, depth=0)
     rets = [n for n in cfg.live_nodes() if n.kind == "stmt" and isinstance(n.ast, ast.Return) and isinstance(n.ast.value, ast.BinOp)]
-    ck.floor("C15.4", len(rets), 1, "scaling return in apply_image_normalization")
+    ck.floor("C15.4", len(rets), 1, "scaling return in apply_image_normalization", fn=fn)
     for r in rets:
         v = r.ast.value
         ok = isinstance(v.op, ast.Div) and isinstance(v.left, ast.BinOp) and isinstance(v.left.op, ast.Sub) and isinstance(v.right, ast.BinOp) and isinstance(v.right.op, ast.Sub)
